@@ -25,7 +25,7 @@ def respondReportsOk : Option IoKind → Bool
 
 /-- answering a vanished client returns success rather than an error. -/
 theorem respond_swallows_client_errors (k : IoKind) (h : k ≠ .other) : respondReportsOk (some k) = true := by
-  sorry
+  cases k <;> first | rfl | exact absurd rfl h
 
 /-- A head that is not complete when the client closes is never delivered: the head reader
     reports "ran out of bytes", the loop ends with nothing more delivered, nothing sent for it,
@@ -34,12 +34,21 @@ theorem incomplete_head_not_delivered (fuel idx : Nat) (s : St) (bs : Bytes) (sc
     (h : readHead bs .eof = .error (.stop st)) :
     let t := runLoop (fuel + 1) idx s bs .eof script
     t.delivered = s.delivered ∧ t.out = s.out ∧ t.ending = .closed := by
-  sorry
+  have hst : st ≠ .pending := by
+    intro hp; subst hp
+    exact readHead_not_pending bs .eof (by decide) h
+  simp only [runLoop, h]
+  cases st with
+  | pending => exact absurd rfl hst
+  | eof => exact ⟨rfl, rfl, rfl⟩
+  | reset => exact ⟨rfl, rfl, rfl⟩
 
 /-- bytes without a CR LF CR LF cannot be a complete head: on an orderly close the reader runs out. -/
 theorem no_terminator_no_head (bs : Bytes) (h : ∀ pre post, bs ≠ pre ++ [13, 10, 13, 10] ++ post) :
     ∀ hd rest, readHead bs .eof ≠ .ok (hd, rest) := by
-  sorry
+  intro hd rest hok
+  obtain ⟨pre, hpre⟩ := readHead_ok_split bs .eof hd rest hok
+  exact h pre rest hpre
 
 /-- a request whose buffered small body is incomplete is never delivered. -/
 theorem incomplete_small_body_not_delivered (fuel idx : Nat) (s : St) (bs : Bytes) (fin : EndState) (script : Script)
@@ -48,34 +57,36 @@ theorem incomplete_small_body_not_delivered (fuel idx : Nat) (s : St) (bs : Byte
     (hk : fr.kind = .buffered n) (hs : rest.length < n) :
     (runLoop (fuel + 1) idx s bs fin script).delivered = s.delivered ∧
     (runLoop (fuel + 1) idx s bs fin script).out = s.out := by
-  sorry
+  have hd : decide (rest.length < n) = true := by simpa using hs
+  simp only [runLoop, hh, hf, hk, hd]
+  cases fin <;> exact ⟨rfl, rfl⟩
 
 /-- what was parsed from a prefix of the stream is what is parsed from the whole stream: a head
     complete in the prefix is the same head, and the position after it is the same position. -/
 theorem head_in_prefix_is_head (p x : Bytes) (h : Head) (r : Bytes) (fin fin' : EndState)
     (hp : readHead p fin = .ok (h, r)) : readHead (p ++ x) fin' = .ok (h, r ++ x) := by
-  sorry
+  exact readHead_ok_ext p x h r fin fin' hp
 
 /-- body reads end instead of blocking forever: once the client is gone (orderly close or reset)
     no read on any body reader state blocks. -/
 theorem body_read_never_blocks_when_closed (b : Body) (want : Nat) (bs : Bytes) (fin : EndState)
     (hf : fin ≠ .open) : (b.read want bs fin).1 ≠ .pending := by
-  sorry
+  exact Body.read_not_pending b want bs fin hf
 
 theorem read_up_to_never_blocks_when_closed (fuel : Nat) (b : Body) (buf total : Nat) (bs : Bytes) (fin : EndState)
     (hf : fin ≠ .open) : (Body.readUpTo fuel b buf total bs fin).2.1 ≠ some .pending := by
-  sorry
+  exact Body.readUpTo_not_pending fuel b buf total bs fin hf
 
 /-- the discard loop stops at EOF or error. -/
 theorem drain_terminates_when_closed (fuel : Nat) (b : Body) (bs : Bytes) (fin : EndState)
     (hf : fin ≠ .open) : Body.drain fuel b bs fin ≠ none := by
-  sorry
+  exact Body.drain_not_none fuel b bs fin hf
 
 /-- handling a request never blocks once the client is gone. -/
 theorem handle_never_blocks_when_closed (s : St) (h : Head) (fr : Framing) (last : Bool) (a : Action)
     (body : Body) (bs : Bytes) (fin : EndState) (hf : fin ≠ .open) :
     (handle s h fr last a body bs fin).2.2 = false := by
-  sorry
+  exact handle_not_blocked s h fr last a body bs fin hf
 
 example : (Conn.run b!"GET /a HTTP/1.1\r\n\r\nGET /b HTTP/1.1\r\nHost: x" .eof (fun _ => ⟨0, 0, 1, .drop⟩)).statuses = [500]
     ∧ (Conn.run b!"GET /a HTTP/1.1\r\n\r\nGET /b HTTP/1.1\r\nHost: x" .eof (fun _ => ⟨0, 0, 1, .drop⟩)).ending = .closed := by decide
